@@ -11,7 +11,7 @@ def _mm(sub, text, observed=None, expected=None):
     return {"sub": sub, "text": text, "observed": observed, "expected": expected}
 
 
-FRAMES = ((1.0, 0.0), (1.0, 2.0 ** 30), (2.0 ** -40, 0.0))
+FRAMES = ((1.0, 0.0), (1.0, 2.0 ** 30), (2.0 ** -50, 0.0))   # 2^-50: neighbouring grid times are closer than any absolute tolerance down to 1e-15
 
 
 def mk(kind, o, sg=1.0, sh=0.0, int_x=False):
@@ -105,7 +105,46 @@ def chk_heap(rec, be):
         for int_x in ((False, True) if (fi == 0 and be == "py" and all(float(v) == int(v) for o in rec["pre"] for v in o["x"])) else (False,)):
             n += _heap_frame(rec, be, kind, sg, sh, int_x, out)
     n += _dtype_probe(rec, be, kind, out)
+    n += _history_probe(rec, be, kind, out)
     return n, out
+
+
+def _history_probe(rec, be, kind, out):
+    """queries are observations: asking every object for its integral / average BEFORE the operation
+    must not change what the same objects answer AFTER it (FuncObjects: IntegralLinear holds in every
+    reachable heap, whatever was asked on the way); the reference is a fresh object built from the
+    post-heap of the specification, which has no history"""
+    heap = [mk(kind, o) for o in rec["pre"]]
+    sub = "heap-history[%s,%s]" % (kind, be)
+    hdr = "pre=%s op=%s" % ([show(expected(kind, o)) for o in rec["pre"]], rec["op"])
+
+    def ask(f):
+        r = f.integral()
+        r = tuple(float(v) for v in r) if isinstance(r, tuple) else (float(r),)
+        return r + (float(f.avrg()),)
+    st, r = call(lambda: [ask(f) for f in heap if f is not None])
+    if st != "ok":
+        return 1       # the query itself is C10's business
+    st, r = call(apply_op, heap, rec["op"], kind)
+    if st != "ok":
+        out.append(_mm(sub, "%s %s raised %s after every object had been asked for its integral" % (sub, hdr, r)))
+        return 1
+    for k, (f, o) in enumerate(zip(heap, rec["post"])):
+        if f is None or not len(o["x"]):
+            continue
+        st, got = call(ask, f)
+        st2, exp = call(ask, mk(kind, o))
+        if st != "ok" or st2 != "ok":
+            if st != st2:
+                out.append(_mm(sub, "%s %s: integral()/avrg() of object %d after the operation: %s, of a fresh object "
+                                    "with the specified arrays: %s" % (sub, hdr, k + 1, got, exp)))
+            continue
+        if not all(close(g, e) for g, e in zip(got, exp)):
+            out.append(_mm(sub, "%s %s: object %d answers integral()/avrg() = %s after the operation, a fresh object with "
+                                "the same (specified) arrays answers %s: the answer depends on what was asked before" % (
+                                    sub, hdr, k + 1, list(got), list(exp)), list(got), list(exp)))
+            break
+    return 2
 
 
 def _dtype_probe(rec, be, kind, out):
@@ -208,6 +247,15 @@ def chk_query(rec, be):
     n = 0
     fo = {"x": [fr(v) for v in fq["x"]], "y1": fq["y1"], "y2": fq["y2"]}
     frames = list(rec.get("_frames", ((1.0, 0.0, False), (2.0 ** -10, 0.0, False), (1.0, 0.0, True), (1.0, 2.0 ** 30, False))))
+    if "_frames" not in rec and q["kind"] in ("integral", "multi", "eval"):
+        # zero-bound frames: the recording is moved so that a query bound is exactly 0.0 inside (or on
+        # the edge of) the support -- a bound of 0 is a number like any other, not "no bound"
+        from fractions import Fraction
+        if all(Fraction(float(v)) == v for v in fo["x"]):
+            for key in ("a", "b", "c"):
+                z = fr(q[key])
+                if z != 0 and Fraction(float(z)) == z and (1.0, -float(z), False) not in frames:
+                    frames.append((1.0, -float(z), False))
     for sg, sh, int_x in frames:
         if int_x and not all(v.denominator == 1 for v in fo["x"]):
             continue
@@ -256,6 +304,13 @@ def chk_query(rec, be):
                 num("integral()", lambda: obj.integral(), (v, m))
                 num("integral(None)", lambda: obj.integral(None), (v, m))
                 num("avrg()", lambda: obj.avrg(), ratio)
+                # history: a query must not freeze the object (FuncObjects: Mul / Add keep Represents)
+                st, r = call(lambda: obj.mul_scalar(-0.5))
+                num("integral() after mul_scalar(-0.5)", lambda: obj.integral(), (-0.5 * v, m))
+                num("avrg() after mul_scalar(-0.5)", lambda: obj.avrg(), -0.5 * ratio if m > 0 else 1.0)
+                st, r = call(lambda: obj.add(mk(kind, fo, sg, sh, int_x)))
+                num("integral() after mul_scalar(-0.5), add(f)", lambda: obj.integral(), (0.5 * v, 2 * m))
+                num("avrg() after mul_scalar(-0.5), add(f)", lambda: obj.avrg(), 0.25 * ratio if m > 0 else 1.0)
             elif k == "multi":
                 num("integral([(a,b),(c,d)])", lambda: obj.integral([(a, b), (c, d)]), (v, m))
                 num("avrg([(a,b),(c,d)])", lambda: obj.avrg([(a, b), (c, d)]), ratio)
@@ -279,6 +334,13 @@ def chk_query(rec, be):
             num("integral(None)", lambda: obj.integral(None), v * sg, sg)
             num("avrg()", lambda: obj.avrg(), v * sg / T)
             num("integral((x0,xN))", lambda: obj.integral((float(fo["x"][0]) * sg + sh, float(fo["x"][-1]) * sg + sh)), v * sg, sg)
+            # history: a query must not freeze the object (FuncObjects: Mul / Add keep Represents, IntegralLinear)
+            st, r = call(lambda: obj.mul_scalar(-0.5))
+            num("integral() after mul_scalar(-0.5)", lambda: obj.integral(), -0.5 * v * sg, sg)
+            num("avrg() after mul_scalar(-0.5)", lambda: obj.avrg(), -0.5 * v * sg / T)
+            st, r = call(lambda: obj.add(mk(kind, fo, sg, sh, int_x)))
+            num("integral() after mul_scalar(-0.5), add(f)", lambda: obj.integral(), 0.5 * v * sg, sg)
+            num("avrg() after mul_scalar(-0.5), add(f)", lambda: obj.avrg(), 0.5 * v * sg / T)
         elif k == "multi":
             num("avrg([(a,b),(c,d)])", lambda: obj.avrg([(a, b), (c, d)]), v / m)
             num("avrg([[c,d],[a,b]])", lambda: obj.avrg([[c, d], [a, b]]), v / m)
